@@ -421,11 +421,20 @@ def cli_part(chk, scratch, n_pairs):
             # polyA-rich data with multi-mapped reads: the polyA share decides whether model construction requires tails, and
             # multi-mapped reads take another path through the saved files than uniquely mapped ones
             from vlib import world2
-            w = world2.rich_world(seed, n_chroms=3, genes_per_chrom=3, polya_frac=0.97, hidden_cov=6, unmapped=0,
+            w = world2.rich_world(seed, n_chroms=3, genes_per_chrom=3, polya_frac=0.97, hidden_cov=6, unmapped=0, extra_len=32000,
                                   read_modes=("full", "full", "full", "trunc5"))
         else:
-            w = world.standard_world(seed, n_chroms=2, genes_per_chrom=4, hidden=True)
+            w = world.standard_world(seed, n_chroms=2, genes_per_chrom=4, hidden=True, chrom_len=100000)
             world.add_standard_reads(w, per_transcript=6, jitter=3, hidden_cov=5)
+        # consecutive gene-info records with the SAME region and different gene lists (a gene nested in an intron of another one, reads in
+        # separate clusters), and one isoform seen from two clusters
+        from vlib import world2 as _w2
+        for ci_, chrom_ in enumerate(w.chrom_order[:2]):
+            last_ = max([g.end for g in w.genes if g.chrom == chrom_] + [r.pos0 + 20000 for r in w.reads if r.chrom == chrom_] + [1000]) + 4000
+            if last_ + 24000 < w.chrom_len(chrom_):
+                _w2.nested_gene_locus(w, "NE%d" % ci_, chrom_, last_, "+-"[(i + ci_) % 2])
+                _w2.two_cluster_gene(w, "TC%d" % ci_, chrom_, last_ + 12500, "+-"[(i + ci_ + 1) % 2])
+                chk.count("nested_gene_loci_in_reuse_worlds")
         # reads with tags and groups
         for r in w.reads:
             r.tags = [("RG", "grp%d" % (hash(r.name) % 3))]
